@@ -67,7 +67,11 @@ def _fn_spans(gen_text):
                 owner = (m.group(1) if m else '?') + '::'
         l0 = gen_text.count('\n', 0, it.attrs_start) + 1
         l1 = gen_text.count('\n', 0, it.end) + 1
-        spans.append((l0, l1, owner + it.name, it.header))
+        attrs = gen_text[it.attrs_start:it.start]
+        line_start = gen_text.rfind('\n', 0, it.start) + 1
+        same_line = gen_text[line_start:it.start]
+        ext = 'external_body' in attrs or 'external_body' in same_line
+        spans.append((l0, l1, owner + it.name, it.header + (' #external_body' if ext else '')))
     return spans
 
 
@@ -160,7 +164,7 @@ def run_unit(repo, contracts_dir, unit, workdir, rlimit=30, threads=8, timeout=9
         is_spec = re.search(r'\bspec\s+fn\b', header) is not None
         kind = 'spec' if is_spec else ('proof' if re.search(r'\bproof\s+fn\b', header) else 'exec')
         d = dict(kind=kind, gen_lines=(l0, l1), ok=None, failures=[], extracted=em is not None,
-                 mode=(em.mode if em else ('template')), src_file=(em.src_file if em else None),
+                 mode=(em.mode if em else ('trusted' if header.endswith('#external_body') else 'template')), src_file=(em.src_file if em else None),
                  src_lines=(em.src_lines if em else None), sha256=(em.sha256 if em else None),
                  rules=(em.rules if em else {}), smt_ms=0)
         if ident in res.functions:
